@@ -20,7 +20,7 @@ func init() {
 		Rule: "events (well-formed lines with and without tags, 0..15 arguments) are sent to a verb with 1..6 foreground and 0..6 background harness handlers; every invocation first compares its line with the " +
 			"expected parse, records the addresses of its Args backing array and Tags map, scribbles over everything (every Args element, appended elements, every tag, new tags, scalar fields), meets the " +
 			"other invocations of the event at a barrier and then checks that its own line carries only its own marks; addresses must be pairwise distinct; the race detector watches the handlers' writes. " +
-			"Built-in mode: events the library's own handlers work on (CAP, 353 incl. the three-argument form, 352, MODE, membership verbs, numerics, greetings waiting at connect) and REGISTER, with two foreground and one background user handler per verb comparing their line with the parse of what was sent. Also: tag sections that are present but empty, sessions whose recovery function edits the line it is handed after a victim's panic, sessions with exactly one handler per set. An event is non-trivial when >= 2 scribbling invocations were open at the same time; distinct_nontrivial = distinct (tags?, argument count, #fg, #bg, GOMAXPROCS) cells among those.",
+			"Crowded sessions with 9..16 handlers per set. Built-in mode: events the library's own handlers work on (CAP, 353 incl. the three-argument form, 352, MODE, membership verbs, numerics, greetings waiting at connect) and REGISTER, with two foreground and one background user handler per verb comparing their line with the parse of what was sent. Also: tag sections that are present but empty, sessions whose recovery function edits the line it is handed after a victim's panic, sessions with exactly one handler per set. An event is non-trivial when >= 2 scribbling invocations were open at the same time; distinct_nontrivial = distinct (tags?, argument count, #fg, #bg, GOMAXPROCS) cells among those.",
 		Assumptions: []string{"invocations of one event meet at a barrier with a 2 s escape; events whose barrier escaped are counted, not judged for foreign marks"},
 		RaceClaim: func(rep string) bool {
 			return raceBothIn(rep, "props.c15", "props.runC15") ||
